@@ -897,6 +897,104 @@ def check_variant(case):
                               "order:" + case["order_spell"], ">=1day" if span else "<1day"] + sorted(cls), ratio=worst)
 
 
+# ------------------------------------------------------------------ convert_in_place
+
+CONV_FORMS = ["keplerian", "spherical", "equinoctial", "keplerian_mean", "cylindrical", "cartesian"]
+CONV_FRAMES = ["TOD", "MOD", "TEME", "ITRF", "PEF", "EME2000"]
+
+
+@st.composite
+def inplace_case(draw, shard, tier):
+    """The usage of the class docstring - `ephem.frame = ...; ephem.form = ...` - interleaved with things
+    that read the ephemeris first: its settings, a copy, a sub-ephemeris, an OEM dump, an interpolation."""
+    d = D(draw)
+    order = d.pick(2, 3, 5, 8)
+    n = d.int(order, order + 6)
+    ops = []
+    for _ in range(d.int(0, 3)):
+        ops.append(dict(op=d.pick("read", "read", "copy()", "ephem()", "dump", "interp", "copy.copy", "pickle")))
+    for _ in range(d.int(1, 3)):
+        ops.append(dict(op="set_form", form=d.pick(*CONV_FORMS)) if d.coin() else dict(op="set_frame", frame=d.pick(*CONV_FRAMES)))
+        for _ in range(d.int(0, 2)):
+            ops.append(dict(op=d.pick("interp", "node", "read", "copy()", "dump")))
+    ops += [dict(op="node"), dict(op="interp")]
+    for o in ops:
+        if o["op"] in ("interp", "node"):
+            o.update(i=d.int(0, n - 2), f=d.u(0.05, 0.95))
+    return dict(n=n, order=order, method=d.pick("lagrange", "lagrange", "linear"), h=d.u(30.0, 300.0),
+                day=d.int(50000, 60000), sec=d.int(0, 86399),
+                el=dict(a=d.u(6.8e6, 2.0e7), e=d.u(0.001, 0.3), i=d.u(0.2, 2.9), raan=d.u(0.1, 6.1), argp=d.u(0.1, 6.1),
+                        nu=d.u(0.1, 6.1)), ops=ops)
+
+
+def check_inplace(case):
+    import copy
+    import pickle
+
+    from beyond.dates import Date
+    from beyond.io import ccsds
+    from beyond.orbits import Ephem, StateVector
+
+    n, k, method = case["n"], case["order"], case["method"]
+    el = case["el"]
+    rv0 = tb.kep2cart(el["a"], el["e"], el["i"], el["raan"], el["argp"], el["nu"], MU)
+    dates = [Date(case["day"], float(case["sec"])) + __import__("datetime").timedelta(seconds=case["h"] * j) for j in range(n)]
+    svs = [StateVector(tb.propagate_uv(rv0, case["h"] * j, MU).tolist(), dt, "cartesian", "EME2000") for j, dt in enumerate(dates)]
+    eph = Ephem(svs, method=method, order=k)
+    xs = np.array([dt._mjd for dt in dates])
+    form, frame = "cartesian", "EME2000"
+    worst = 0.0
+    seen = []
+    converted = False
+    for step, op in enumerate(case["ops"]):
+        kind = op["op"]
+        seen.append(kind)
+        if kind == "read":
+            if str(eph.method).lower() != method or eph.order != k:
+                raise Violation("settings", f"step {step}: method/order read {eph.method!r}/{eph.order!r}")
+        elif kind in ("copy()", "ephem()", "copy.copy", "pickle"):
+            c = {"copy()": lambda e: e.copy(), "ephem()": lambda e: e.ephem(), "copy.copy": copy.copy,
+                 "pickle": lambda e: pickle.loads(pickle.dumps(e))}[kind](eph)
+            if len(c) != n:
+                raise Violation("clone-length", f"step {step}: {kind} has {len(c)} points")
+        elif kind == "dump":
+            ccsds.dumps(eph)
+        elif kind == "set_form":
+            eph.form = form = op["form"]
+            converted = True
+        elif kind == "set_frame":
+            eph.frame = frame = op["frame"]
+            converted = True
+        else:
+            # the table is what the points now hold (their conversion is C01 / C02's subject)
+            ys = np.array([vals_of(eph[j]) for j in range(n)])
+            if not np.all(np.isfinite(ys)):
+                return dict(nt=False, cls=["degenerate-conversion"], ratio=0.0)
+            if kind == "node":
+                qd = dates[op["i"]]
+            else:
+                qd = dates[op["i"]] + __import__("datetime").timedelta(seconds=case["h"] * op["f"])
+            res = eph.interpolate(qd)
+            if res.form.name != form or res.frame.name != frame:
+                raise Violation("metadata-frame-form", f"step {step}: result in {res.frame.name}/{res.form.name}, the "
+                                f"ephemeris is now in {frame}/{form}")
+            got = vals_of(res)
+            what = f"step {step}, after {' > '.join(seen)} (now {frame}/{form}, {method}, order {k})"
+            if kind == "node" and not np.array_equal(got, ys[op["i"]]):
+                raise Violation("stale-table", f"{what}: the date of point {op['i']} returns {got.tolist()}, that point "
+                                f"holds {ys[op['i']].tolist()}")
+            if form in ("cartesian",):
+                worst = max(worst, match_interpolant(xs, ys, method, k, qd._mjd, got, what))
+            else:
+                # angles may wrap between neighbouring points: only the node clause and the linear chord apply
+                # to such tables; check the components that do not wrap (the first one: a, r or rho)
+                worst = max(worst, match_interpolant(xs, ys[:, :1], method, k, qd._mjd, got[:1], what))
+    return dict(nt=converted, cls=[method, "read-before-set" if any(o in seen[:seen.index("set_form") if "set_form" in seen else len(seen)]
+                                                                  for o in ("read", "copy()", "ephem()", "dump", "copy.copy", "pickle")) else "plain",
+                                   "interp-before-set" if "interp" in seen[: min([seen.index(x) for x in ("set_form", "set_frame") if x in seen] or [0])] else "fresh"],
+                ratio=worst)
+
+
 # ------------------------------------------------------------------ raw_types (containers / dtypes of the raw interpolator)
 
 XKINDS = ["f64", "list", "tuple", "int64", "pyint-list", "f32", "view"]
@@ -1089,7 +1187,18 @@ def linear_node_rounding(facet, case, kind, msg, data):
     return facet == "node_exact" and kind == "node-linear" and case.get("method") == "linear"
 
 
-FINDINGS = {"C09/linear-node-rounding": linear_node_rounding}
+def stale_after_inplace_conversion(facet, case, kind, msg, data):
+    """The lazy interpolator copies the values of the points when it is first used: `ephem.form = ...` /
+    `ephem.frame = ...` after a first interpolation is not seen by interpolate() (old numbers, new labels)."""
+    if facet != "convert_in_place" or kind not in ("stale-table", "lagrange-value", "linear-value"):
+        return False
+    ops = [o["op"] for o in case["ops"]]
+    sets = [j for j, o in enumerate(ops) if o in ("set_form", "set_frame")]
+    return bool(sets) and any(o in ("interp", "node") for o in ops[: sets[-1]])
+
+
+FINDINGS = {"C09/linear-node-rounding": linear_node_rounding,
+            "C09/stale-after-inplace-conversion": stale_after_inplace_conversion}
 
 FACETS = [
     Facet("node_exact", node_case, check_node_exact, setup=_setup,
@@ -1111,6 +1220,9 @@ FACETS = [
     Facet("variants", variant_case, check_variant, setup=_setup,
           rule="every case: the same ephemeris under another spelling (labels, container, order type, clone, scribble)",
           quick=(8, 250), thorough=(16, 3000)),
+    Facet("convert_in_place", inplace_case, check_inplace, setup=_setup,
+          rule="a form / frame change in place happens between building the ephemeris and interpolating",
+          quick=(6, 200), thorough=(12, 2000)),
     Facet("raw_types", raw_case, check_raw, setup=_setup,
           rule="every case: xs / ys / x handed over in another container or dtype",
           quick=(4, 400), thorough=(8, 4000)),
